@@ -24,7 +24,8 @@ TStep ==
   /\ l <= Len(T.events)
   /\ LET e == T.events[l]
          batch == [i \in 1..Len(e.pk) |-> [type |-> e.pk[i].type, plen |-> e.pk[i].plen]] IN
-       IF e.sig # "" THEN e.writes = 0 /\ FlowSignal      \* pause_writing / resume_writing: nothing is written
+       IF e.sig = "reject" THEN e.writes = 0 /\ e.exact /\ RejectedBatch     \* refused as a whole (exact: it raised, nothing reached the wire)
+       ELSE IF e.sig # "" THEN e.writes = 0 /\ FlowSignal      \* pause_writing / resume_writing: nothing is written
        ELSE
        /\ e.writes = 1                    \* a single transport write per batch
        /\ e.exact = TRUE                  \* payload bytes identical, nothing trailing
